@@ -474,6 +474,7 @@ fn c16_units(tier: Tier) -> Vec<Unit> {
             }
         }));
     }
+    units.extend(super::sock::c16_borrowed_units(thorough));
     units
 }
 
